@@ -78,7 +78,7 @@ func c08VT(c *mon.Case, sp c08Spec) {
 		return s.Send(b)
 	}
 	shape := ""
-	nInj, nFwdChecked, nOrig, nResend := 0, 0, 0, 0
+	nInj, nFwdChecked, nOrig, nResend, nEmpty := 0, 0, 0, 0, 0
 
 	for step := 0; step < sp.Steps && !c.Failed(); step++ {
 		expect := make([]map[string]int, n) // per pipe: body -> transmissions expected in this step
@@ -90,6 +90,10 @@ func c08VT(c *mon.Case, sp c08Spec) {
 		for j := 0; j < k; j++ {
 			p := c.Rand.Intn(n)
 			b := body("inj")
+			if j == 0 && c.Rand.Intn(4) == 0 {
+				b = []byte{} // a message with no payload at all is a message like any other (at most one per step: bodies identify messages)
+				nEmpty++
+			}
 			src[string(b)] = p
 			if star {
 				pipes[p].Inject(hx.Cat([]byte{0, 0, 0, byte(c.Rand.Intn(7))}, b)) // hop count well inside the default TTL 8
@@ -97,7 +101,7 @@ func c08VT(c *mon.Case, sp c08Spec) {
 				pipes[p].Inject(b)
 			}
 			nInj++
-			c.Logf("step %d inject pipe=%d %q", step, p, b[:12])
+			c.Logf("step %d inject pipe=%d %q", step, p, b[:min(12, len(b))])
 		}
 		seen := map[string]bool{}
 		for j := 0; j < k && !c.Failed(); j++ {
@@ -247,6 +251,7 @@ func c08VT(c *mon.Case, sp c08Spec) {
 		}
 	}
 	c.Count("vt_injected", nInj)
+	c.Count("vt_injected_empty_body", nEmpty)
 	c.Count("vt_resent_by_application", nResend)
 	c.Count("vt_originated", nOrig)
 	c.Count("vt_transmissions_compared", nFwdChecked)
